@@ -24,7 +24,7 @@ from .theory import Theory
 COMPS = [('pstore', '(Array Key Int)'), ('lists', 'Heap'), ('avalues', '(Array Int TList)'), ('nextref', 'Int'),
          ('published', '(Array Int Bool)'), ('nextv', 'Int'), ('ectx', '(Array String Int)'),
          ('blacklist', '(Array String Bool)'), ('vmaps', '(Array Int (Array Int Int))'),
-         ('owned', '(Array Int Bool)'), ('hcnt', '(Array Int Int)'), ('rlimit', 'Int')]
+         ('owned', '(Array Int Bool)'), ('hcnt', '(Array Int Int)'), ('rlimit', 'Int'), ('sdone', '(Array Int Bool)')]
 
 REF_SORTS = ('FList', 'Answer', 'VarMap')
 
@@ -49,6 +49,8 @@ class EngineTheory(Theory):
             return SV(sort, e)
         if sort == 'Any':
             return SV('Any', ex.fresh('Int', n))
+        if sort == 'SObj':
+            return SV('SObj', ex.fresh('Int', n))
         if sort == 'OptInt':
             return SV('OptInt', ex.fresh('Int', n), {'none': ex.fresh('Bool', n + '_is_none')})
         if sort == 'UserFn':
@@ -193,9 +195,14 @@ class EngineTheory(Theory):
                 return [(st, SV('Fn', '(fn_method "%s")' % attr, {'name': 'YP.' + attr}))]
         if base.sort == 'Answer' and attr == 'values':
             return [(st, SV('TList', '(select %s %s)' % (st.comp['avalues'], base.e)))]
+        if base.sort == 'SObj' and attr == '_done':
+            return [(st, SV('Bool', '(select %s %s)' % (st.comp['sdone'], base.e)))]
         return None
 
     def attr_write(self, ex, base, attr, v, st, node):
+        if base.sort == 'SObj' and attr == '_done' and v.sort == 'Bool':
+            st.comp['sdone'] = '(store %s %s %s)' % (st.comp['sdone'], base.e, v.e)
+            return [(st, None)]
         if base.sort == 'YP' and attr == '_predicates_store' and v.sort == 'PyDict' and not v.meta.get('items'):
             st.comp['pstore'] = '((as const (Array Key Int)) (- 1))'
             return [(st, None)]
